@@ -47,10 +47,10 @@ trap 'rm -rf "$S"' EXIT
 export TMPDIR="$S/tmp"
 mkdir -p "$S/lib" "$S/decimal" "$S/meta" "$S/tmp"
 
-# --- scratch copies: /repo's current working tree and the dependency ---
-for f in "$REPO"/*.go; do
-  case "$f" in *_test.go) ;; *) cp "$f" "$S/lib/" || die "copy $f";; esac
-done
+# --- scratch copies: /repo's current working tree (all packages, no tests) and the dependency ---
+(cd "$REPO" && find . -name .git -prune -o -type f -name '*.go' ! -name '*_test.go' -print | while read -r f; do
+   mkdir -p "$S/lib/$(dirname "$f")" && cp "$f" "$S/lib/$f" || exit 1
+ done) || die "copying $REPO failed"
 cp "$REPO/go.mod" "$S/lib/go.mod" || die "copy go.mod"
 DEPVER=$(awk '$1=="github.com/govalues/decimal"{print $2}' "$REPO/go.mod" | head -1)
 [ -n "$DEPVER" ] || DEPVER=v0.1.36
@@ -64,6 +64,13 @@ cp "$DEPSRC/go.mod" "$S/decimal/go.mod"
 chmod -R u+w "$S"
 
 "$VERIF/bin/vsim-instrument" -dir "$S/lib" -out "$S/meta" -name lib -base 1 || die "instrumenting the library copy failed"
+# further packages of the repository (none today): each gets its own range of site ids
+n=0
+(cd "$S/lib" && find . -mindepth 1 -type d | sort) | while read -r d; do
+  ls "$S/lib/$d"/*.go >/dev/null 2>&1 || continue
+  n=$((n+1)); [ $n -le 15 ] || die "too many packages"
+  "$VERIF/bin/vsim-instrument" -dir "$S/lib/$d" -out "$S/meta" -name "lib$n" -base $((n*60000)) || exit 2
+done || die "instrumenting a sub-package of the library copy failed"
 "$VERIF/bin/vsim-instrument" -dir "$S/decimal" -out "$S/meta" -name dep -base 1048576 || die "instrumenting the dependency copy failed"
 printf '\nrequire vsimrt v0.0.0\nreplace vsimrt => %s/vsimrt\nreplace github.com/govalues/decimal => %s/decimal\n' "$VERIF" "$S" >> "$S/lib/go.mod"
 printf '\nrequire vsimrt v0.0.0\nreplace vsimrt => %s/vsimrt\n' "$VERIF" >> "$S/decimal/go.mod"
